@@ -16,7 +16,9 @@ from pydrobert.torch.functional import ctc_prefix_search_advance
 
 from mc.runner import Ctx
 from mc.oracles import decoding_ctc as O
-from checks._c05_lm import TableLM
+from mc.oracles import katz as KZ
+from mc import guards
+from checks._c05_lm import TableLM, RecurrentLM
 
 PROP = "C05"
 LEVEL = "model_checking"
@@ -45,7 +47,23 @@ RULE = (
     "only change the input (N=2 with mixed lens / N=1 / N=2 swapped with lens=None / N=1 shorter "
     "with the initial state omitted), call again; every call must equal bit-for-bit the result of a "
     "FRESH object carrying the current settings and every element must equal its solo search under "
-    "those settings (held to both oracles). Larger instances (Oracle B of the same width + structural "
+    "those settings (held to both oracles); a step that reassigns width / beta / valid_mixture (all "
+    "__constants__ of the module) is executed and only COUNTED (constants_reassigned_honoured/_ignored), "
+    "the history then continues on a newly constructed object; lm <-> None and input changes stay "
+    "verdicts. LM flavours (V=2, T=3 (thorough 3,4), N=1 every pool matrix x every length, N=2 all lens "
+    "vectors for 2 (thorough 6) rotations, widths {1,2,3,P+5}, plain beta {.3,1} and valid_mixture .3): "
+    "LookupLanguageModel of order 2 (sos outside) and 3 (sos=0), a recurrent LM with per-element "
+    "initial hidden state, MixableShallowFusionLanguageModel(first, second, beta_c in {0,.3}) over "
+    "members lookup/recurrent/table in both positions, and an Extractable-only composite with search "
+    "beta 0 - all against Oracle A/B with next-label scores obtained by stepping every member by hand "
+    "(Katz back-off on the n-gram dictionaries, the recurrence in plain Python, the table row) and "
+    "combining first + beta_c*second. Lifecycle of the whole search object (5 LM flavours incl. "
+    "order-2/3 lookup and composites, plain .3 / mixture 1, widths {3,P+5}, 4 inputs each): deepcopy, "
+    "pickle, torch.save, used+deepcopy, eval+deepcopy, state_dict, state_dict-after-use, double-float, "
+    "the parent-level search.load_state_dict into a search whose LM has the same shape but other "
+    "numbers / a bushier or smaller n-gram table / a fresh uniform LM / other recurrent weights "
+    "(a refused load is counted, lifecycle_load_refused), and lm.load_state_dict into a uniform LM: "
+    "every variant must return bit-for-bit what a fresh search returns. Larger instances (Oracle B of the same width + structural "
     "invariants + batch == solo; Oracle A cannot enumerate them): V+1 in {32,16,7}, T in {16,20,24}, N=2 "
     "with lens [T,T-3] plus both elements alone, widths {2,8}, no fusion / plain fusion beta .3 with the "
     "table LM, 3 (thorough 8) seed-valued matrix pairs with a +4 peak per frame on labels that never "
@@ -74,6 +92,9 @@ ASSUMPTIONS = [
     "5e-4 / 1e-7 at a pruning decision (float64 runs had none); the LM table is indexed by the state code "
     "modulo 4093; CTCPrefixSearch has no blank/eos argument (blank is always the last index), so there is no "
     "negative spelling to try; float64 logits are a full dtype dimension of the small-scope part",
+    "LM flavours: the hand-stepped reference uses mc/oracles/katz.py for n-gram members (finite listed "
+    "log-probabilities only); with an n-gram member the float32 tolerances apply whatever the logits' dtype "
+    "(its buffers are float32); an Extractable-only composite is only legal with search beta 0",
     "object reuse covers the public attributes width, beta, valid_mixture, lm (CTCPrefixSearch has no other "
     "public setting); the blank index is fixed by the API; reassigned values are legal constructor values; "
     "equality with a fresh object is exact (same arithmetic on the same inputs, single thread)",
@@ -161,6 +182,8 @@ class Env:
                                                for _ in range(NBIAS - 1)], dtype=self.dtype)
             self.lm = TableLM(V, table, bias)
             self.table_l, self.bias_l = table.tolist(), bias.tolist()
+        self.sig_extra = {}  # added to every signature / case of this environment (LM flavour)
+        self.case_extra = {}
         self._lmp = {}
         self._search = {}
         self._solo = {}
@@ -295,6 +318,8 @@ def solo(ctx, env, name, l, width, tier):
     A, live = env.exact(name, l)
     wide = width > max(live)
     sig0 = {"api": "CTCPrefixSearch", "fusion": env.cfg[0] if env.cfg[1] else "none", "width_exceeds_live": wide}
+    sig0.update(env.sig_extra)
+    case.update(env.case_extra)
     ctx.case(1, 1 if l else 0)
     ctx.transitions += l
     ctx.count("solo_searches")
@@ -392,6 +417,8 @@ def run_batch(ctx, env, T, names, lens, width, tier, lens_none=False, poison=Fal
             "T": T, "mats": list(names), "lens": list(lens), "width": width, "lens_none": lens_none,
             "poison": poison}
     sig0 = {"api": "CTCPrefixSearch", "fusion": env.cfg[0] if env.cfg[1] else "none", "batched": True}
+    sig0.update(env.sig_extra)
+    case.update(env.case_extra)
     if poison:
         sig0["padding_frames"] = "nan"
         ctx.count("batched_searches_with_nan_padding_frames")
@@ -769,6 +796,10 @@ def run_reuse(ctx, R, tier, T, r, start, assigns, call_first, shift=0):
             else:
                 setattr(obj, k, v)
         cur.update(assign)
+        # width, beta, valid_mixture are __constants__ of CTCPrefixSearch: reassigning them on a live module is
+        # not a supported way to reconfigure it. Such a step is executed and COUNTED, never judged; the history
+        # continues on a newly constructed object with the new configuration.
+        constants = sorted(set(assign) & set(CTCPrefixSearch.__constants__))
         inp = inputs[(j + shift) % len(inputs)]
         env = R.get(cur)
         changed = "+".join(sorted(assign)) if assign else ("first-call" if j == 0 else "inputs-only")
@@ -788,6 +819,13 @@ def run_reuse(ctx, R, tier, T, r, start, assigns, call_first, shift=0):
             with torch.no_grad():
                 return search(*args)
 
+        if constants:
+            try:
+                honoured = _same_result(call(obj), call(R.build(cur))) is None
+            except Exception:  # noqa: BLE001 - counted, not judged
+                honoured = False
+            ctx.count("constants_reassigned_honoured" if honoured else "constants_reassigned_ignored")
+            obj = R.build(cur)
         try:
             got = call(obj)
             fresh = call(R.build(cur))
@@ -1048,8 +1086,287 @@ def run_variants_shard(ctx, spec, tier, seed):
 
 
 # ----------------------------------------------------------------------------------------------
+# every LM flavour the search accepts, against the fused reference in which the LMs are stepped by hand
+LOOKUP_KEYS = {  # name -> (sos, [keys of order 1, 2, ...]); V = 2
+    "lookup2": (-1, [[0, 1, -1], [(-1, 0), (0, 1), (1, 1), (1, 0)]]),
+    "lookup2b": (-1, [[0, 1, -1], [(-1, 0), (0, 1), (1, 1), (1, 0)]]),  # same shape, other numbers
+    "lookup2full": (-1, [[0, 1, -1], [(-1, 0), (-1, 1), (0, 0), (0, 1), (1, 0), (1, 1)]]),  # bushier trie
+    "lookup1": (-1, [[0, 1, -1]]),  # smaller table
+    "lookup3": (0, [[0, 1], [(0, 0), (0, 1), (1, 0), (1, 1)], [(0, 0, 1), (0, 1, 1), (1, 0, 0), (0, 1, 0), (1, 1, 1)]]),
+    "lookup3b": (0, [[0, 1], [(0, 0), (0, 1), (1, 0), (1, 1)], [(0, 0, 1), (0, 1, 1), (1, 0, 0), (0, 1, 0), (1, 1, 1)]]),
+}
+FLAVOURS = [
+    ["lookup2"], ["lookup3"], ["rnn"],
+    ["mix", "lookup2", "rnn", 0.3], ["mix", "rnn", "lookup3", 0.3], ["mix", "rnn", "table", 0.3],
+    ["mix", "table", "rnn", 0.3], ["mix", "lookup2", "lookup3", 0.3], ["mix", "rnn", "rnn2", 0.3],
+    ["mix", "lookup2", "rnn", 0.0], ["mix", "rnn", "table", 0.0],
+    ["ext", "lookup2", "rnn", 0.3],  # extractable only: legal for the search as long as its beta is 0
+]
+RNN_H = 3
+
+
+def gen_lookup(name, seed):
+    sos, keys = LOOKUP_KEYS[name]
+    rng = random.Random(f"c05-{name}-{seed}")
+    dicts = []
+    for n, ks in enumerate(keys):
+        last = n == len(keys) - 1
+        d = {}
+        for k in ks:
+            lp, lb = round(rng.uniform(-2.0, -0.1), 2), round(rng.uniform(-1.0, 0.0), 2)
+            d[k] = lp if last else (lp, lb)
+        dicts.append(d)
+    return sos, dicts
+
+
+def gen_rnn(name, V, seed, dtype):
+    rng = random.Random(f"c05-{name}-{seed}-{V}")
+
+    def mat(r, c, a):
+        return torch.tensor([[round(rng.uniform(-a, a), 2) for _ in range(c)] for _ in range(r)], dtype=dtype)
+
+    E, U, Wo = mat(V, RNN_H, 1.5), mat(RNN_H, RNN_H, 1.0), mat(RNN_H, V, 2.0)
+    bo = mat(1, V, 0.5)[0]
+    h0 = torch.cat([torch.zeros(1, RNN_H, dtype=dtype), mat(NBIAS - 1, RNN_H, 1.0)], 0)
+    return E, U, Wo, bo, h0
+
+
+class FlavourEnv(Env):
+    """Env whose fused LM is one of FLAVOURS; the reference next-label scores are obtained by stepping every
+    member by hand along the prefix (Katz back-off on the n-gram dictionaries, the recurrence in plain Python,
+    the table row) and combining them as the shallow-fusion composite documents: first + beta_c * second."""
+
+    def __init__(self, V, cfg, dtype, seed, names, flavour):
+        super().__init__(V, cfg if cfg[0] != "none" else ("plain", 0.0), dtype, seed, names)
+        self.flavour = list(flavour)
+        self.sig_extra = {"lm": "/".join(str(x) for x in flavour)}
+        self.case_extra = {"flavour": list(flavour)}
+        self.members = flavour[1:3] if flavour[0] in ("mix", "ext") else [flavour[0]]
+        self.bc = float(flavour[3]) if flavour[0] in ("mix", "ext") else 0.0
+        self._ref = {}
+        for m in self.members:
+            if m.startswith("lookup"):
+                self._ref[m] = gen_lookup(m, seed)
+            elif m.startswith("rnn"):
+                self._ref[m] = [t.tolist() for t in gen_rnn(m, V, seed, self.dtype)]
+        if any(m.startswith("lookup") for m in self.members) and dtype == "float64":
+            # the n-gram buffers are float32 whatever the logits are
+            self.tol, self.tol_solo, self.tie = TOL["float32"], TOL_SOLO["float32"], TIE["float32"]
+        self.lm = self.build_lm()
+
+    def build_member(self, m, seed=None):
+        seed = self.seed if seed is None else seed
+        if m.startswith("lookup"):
+            from pydrobert.torch.modules import LookupLanguageModel
+
+            sos, dicts = gen_lookup(m, seed)
+            return LookupLanguageModel(self.V, sos, dicts)
+        if m.startswith("rnn"):
+            return RecurrentLM(self.V, *gen_rnn(m, self.V, seed, self.dtype))
+        return TableLM(self.V, torch.tensor(self.table_l, dtype=self.dtype), torch.tensor(self.bias_l, dtype=self.dtype))
+
+    def build_lm(self, members=None, seed=None):
+        from pydrobert.torch.modules import (ExtractableShallowFusionLanguageModel,
+                                             MixableShallowFusionLanguageModel)
+
+        members = self.members if members is None else members
+        if self.flavour[0] == "mix":
+            return MixableShallowFusionLanguageModel(self.build_member(members[0], seed),
+                                                     self.build_member(members[1], seed), self.bc)
+        if self.flavour[0] == "ext":
+            return ExtractableShallowFusionLanguageModel(self.build_member(members[0], seed),
+                                                         self.build_member(members[1], seed), self.bc)
+        return self.build_member(members[0], seed)
+
+    def build_search(self, width, lm=None):
+        kind, beta = self.cfg
+        return CTCPrefixSearch(width, beta, self.build_lm() if lm is None else lm, valid_mixture=(kind == "mixture"))
+
+    def raw(self, m, prefix, off):
+        if m.startswith("lookup"):
+            sos, dicts = self._ref[m]
+            return KZ.next_logps(dicts, self.V, sos, prefix)
+        if m.startswith("rnn"):
+            E, U, Wo, bo, h0 = self._ref[m]
+            h = list(h0[off])
+            for tok in prefix:
+                h = [math.tanh(E[tok][j] + sum(h[i] * U[i][j] for i in range(RNN_H))) for j in range(RNN_H)]
+            return [sum(h[i] * Wo[i][v] for i in range(RNN_H)) + bo[v] for v in range(self.V)]
+        row = self.table_l[O.encode(prefix, self.V) % len(self.table_l)]
+        return [a + b for a, b in zip(row, self.bias_l[off])]
+
+    def lm_probs(self, prefix, off):
+        k = (prefix, off)
+        r = self._lmp.get(k)
+        if r is None:
+            raw = self.raw(self.members[0], prefix, off)
+            if len(self.members) == 2:
+                raw = [a + self.bc * b for a, b in zip(raw, self.raw(self.members[1], prefix, off))]
+            r = self._lmp[k] = O.softmax(raw)
+        return r
+
+    def init_state(self, names):
+        offs = torch.tensor([self.off[n] for n in names], dtype=torch.long)
+        if len(self.members) == 1:
+            return {} if self.members[0].startswith("lookup") else {"off": offs}
+        st = {}
+        for pre, m in zip(("first.", "second."), self.members):
+            if not m.startswith("lookup"):
+                st[pre + "off"] = offs.clone()
+        return st
+
+    def call(self, width, logits, lens, names, search=None):
+        with torch.no_grad():
+            return (self.search(width) if search is None else search)(logits, lens, self.init_state(names))
+
+
+def flavour_cfgs(flavour):
+    return [("plain", 0.0)] if flavour[0] == "ext" else [("plain", 0.3), ("plain", 1.0), ("mixture", 0.3)]
+
+
+def run_flavour_shard(ctx, spec, tier, seed):
+    V = 2
+    names = pool_names(tier)
+    P = len(names)
+    for cfg in flavour_cfgs(spec["flavour"]):
+        env = FlavourEnv(V, cfg, spec["dtype"], seed, names, spec["flavour"])
+        for T in ((3, 4) if tier == "thorough" else (3,)):
+            ws = [w for w in widths_for(env, T) if w != 50]
+            for r in range(P):
+                for l in range(T + 1):
+                    for w in ws:
+                        run_batch(ctx, env, T, [names[r]], [l], w, tier)
+            for r in ((0, P // 2) if tier != "thorough" else range(0, P, 2)):
+                mats = [names[r], names[(r + 1) % P]]
+                for lens in itertools.product(range(T + 1), repeat=2):
+                    for w in ws:
+                        run_batch(ctx, env, T, mats, list(lens), w, tier)
+        ctx.count("lm_flavour_configurations")
+
+
+# ----------------------------------------------------------------------------------------------
+# lifecycle of the whole search object (deepcopy, pickle, torch.save, state dicts ...) with a fused LM
+LIFECYCLE = [  # (flavour, members of the module that RECEIVES a state dict in 'state_dict-into-other' runs)
+    (["lookup2"], [["lookup2b"], ["lookup2full"], ["lookup1"], ["uniform"]]),
+    (["lookup3"], [["lookup3b"], ["uniform"]]),
+    (["rnn"], [["rnn2"]]),
+    (["mix", "lookup3", "rnn", 0.3], [["lookup3b", "rnn2"], ["uniform", "rnn2"]]),
+    (["mix", "rnn", "lookup2", 0.3], [["rnn2", "lookup1"]]),
+]
+
+
+def run_lifecycle(ctx, env, width, tier, others):
+    V, T = env.V, 3
+    names = env.names
+    inputs = [([names[0], names[4]], [T, 1], False), ([names[2]], [T], False), ([names[5], names[1]], [T, T], True),
+              ([names[9], names[3]], [2, T], False)]
+    case0 = {"kind": "lifecycle", "V": V, "dtype": env.dtype_name, "cfg": list(env.cfg), "seed": env.seed,
+             "tier": tier, "flavour": env.flavour, "width": width, "others": others}
+    sig0 = {"api": "CTCPrefixSearch", "fusion": env.cfg[0] if env.cfg[1] else "none", "batched": True}
+    sig0.update(env.sig_extra)
+
+    def run(search, inp):
+        mats, lens, none = inp
+        logits = torch.stack([env.mat_t[n][:T] for n in mats], 1)
+        return env.call(width, logits, None if none else torch.tensor(lens), mats, search=search)
+
+    def make():
+        return env.build_search(width)
+
+    def used(o):
+        run(o, inputs[1])
+
+    def other_lm(members):
+        from pydrobert.torch.modules import LookupLanguageModel
+
+        def one(m, like):
+            if m == "uniform":
+                return LookupLanguageModel(V, LOOKUP_KEYS[like][0])
+            return env.build_member(m)
+
+        if len(env.members) == 1:
+            return one(members[0], env.members[0])
+        from pydrobert.torch.modules import MixableShallowFusionLanguageModel
+
+        return MixableShallowFusionLanguageModel(one(members[0], env.members[0]), one(members[1], env.members[1]), env.bc)
+
+    try:
+        fresh = [run(make(), inp) for inp in inputs]
+    except Exception as e:
+        ctx.violation(dict(sig0, symptom="raises", type=type(e).__name__), case0, {"error": str(e)[-400:]})
+        return
+    mats, lens, _ = inputs[0]  # the fresh object itself against the oracles
+    ctx.case(1, 1)
+    check_elements(ctx, env, sig0, dict(case0, variant="fresh"), *fresh[0], mats, lens, width, tier)
+
+    def variants():
+        yield from guards.lifecycle_variants(make, used)
+        for members in others:
+            got = False
+            for name, o in guards.lifecycle_variants(make, used, kinds=["state_dict-into-other"],
+                                                     make_other=lambda: env.build_search(width, other_lm(members))):
+                got = True
+                yield name + ":" + "+".join(members), o
+            if not got:
+                ctx.count("lifecycle_load_refused")  # a refused load decides nothing
+        # the documented route for an n-gram LM: the LM's own load_state_dict on a fresh uniform model
+        if len(env.members) == 1 and env.members[0].startswith("lookup"):
+            o = env.build_search(width, other_lm(["uniform"]))
+            used(o)
+            o.lm.load_state_dict(make().lm.state_dict())
+            yield "lm.load_state_dict:uniform", o
+
+    it = variants()
+    while True:
+        try:
+            name, obj = next(it)
+        except StopIteration:
+            break
+        except Exception as e:
+            ctx.violation(dict(sig0, symptom="lifecycle-operation-raises", type=type(e).__name__), case0,
+                          {"error": str(e)[-400:]})
+            break
+        vcase = dict(case0, variant=name)
+        vsig = dict(sig0, variant=name.split(":")[0])
+        for i, inp in enumerate(inputs):
+            ctx.case(1, 1)
+            ctx.transitions += sum(inp[1])
+            ctx.count("lifecycle_searches")
+            try:
+                got = run(obj, inp)
+            except Exception as e:
+                ctx.violation(dict(vsig, symptom="raises", type=type(e).__name__), dict(vcase, input=i),
+                              {"error": str(e)[-400:]})
+                break
+            diff = _same_result(got, fresh[i])
+            if diff:
+                ctx.violation(dict(vsig, symptom="lifecycle-variant-differs-from-fresh", what=diff), dict(vcase, input=i),
+                              {"variant_probs": got[2].tolist(), "fresh_probs": fresh[i][2].tolist(),
+                               "expected": "exactly what a freshly constructed search returns"})
+                break
+        else:
+            ctx.count("lifecycle_variants_equal_to_fresh")
+
+
+def run_lifecycle_shard(ctx, spec, tier, seed):
+    names = pool_names("thorough")
+    flavour, others = LIFECYCLE[spec["index"]]
+    for cfg in (("plain", 0.3), ("mixture", 1.0)):
+        env = FlavourEnv(2, cfg, spec["dtype"], seed, names, flavour)
+        for width in (3, env.n_reachable(3) + 5):
+            run_lifecycle(ctx, env, width, tier, others)
+
+
+# ----------------------------------------------------------------------------------------------
 def shards(tier, seed):
     out = []
+    for i in range(len(LIFECYCLE)):
+        out.append({"kind": "lifecycle", "index": i, "dtype": "float32"})
+    for fl in FLAVOURS:
+        for dt in DTYPES:
+            if dt == "float64" and tier != "thorough" and any(str(m).startswith("lookup") for m in fl):
+                continue  # the n-gram buffers are float32 anyway
+            out.append({"kind": "flavour", "flavour": fl, "dtype": dt})
     for Vp1 in (32, 16, 7):
         for dt in DTYPES:
             out.append({"kind": "large", "Vp1": Vp1, "dtype": dt})
@@ -1084,6 +1401,10 @@ def run_shard(spec, tier, seed):
         run_large_shard(ctx, spec, tier, seed)
     elif spec["kind"] == "variants":
         run_variants_shard(ctx, spec, tier, seed)
+    elif spec["kind"] == "flavour":
+        run_flavour_shard(ctx, spec, tier, seed)
+    elif spec["kind"] == "lifecycle":
+        run_lifecycle_shard(ctx, spec, tier, seed)
     else:
         run_advance_shard(ctx, spec, tier, seed)
     return ctx
@@ -1093,7 +1414,11 @@ def replay(case):
     ctx = Ctx()
     if case["kind"] == "search":
         tier = case.get("tier", "thorough")
-        env = Env(case["V"], tuple(case["cfg"]), case["dtype"], case["seed"], pool_names("thorough"))
+        if "flavour" in case:
+            env = FlavourEnv(case["V"], tuple(case["cfg"]), case["dtype"], case["seed"], pool_names("thorough"),
+                             case["flavour"])
+        else:
+            env = Env(case["V"], tuple(case["cfg"]), case["dtype"], case["seed"], pool_names("thorough"))
         run_batch(ctx, env, case["T"], case["mats"], case["lens"], case["width"], tier, case.get("lens_none", False),
                   case.get("poison", False))
     elif case["kind"] == "advance":
@@ -1105,6 +1430,10 @@ def replay(case):
         tier = case.get("tier", "quick")
         env = Env(case["V"], tuple(case["cfg"]), case["dtype"], case["seed"], pool_names(tier))
         run_variants(ctx, env, case["T"], case["mats"], case["lens"], case["width"], tier)
+    elif case["kind"] == "lifecycle":
+        env = FlavourEnv(case["V"], tuple(case["cfg"]), case["dtype"], case["seed"], pool_names("thorough"),
+                         case["flavour"])
+        run_lifecycle(ctx, env, case["width"], case.get("tier", "quick"), case["others"])
     elif case["kind"] == "reuse":
         tier = case.get("tier", "quick")
         R = ReuseEnvs(case["V"], case["dtype"], case["seed"], pool_names(tier))
